@@ -673,6 +673,31 @@ func c09Sketch(c *Ctx, a *sketchAnchors) {
 
 func c09Rebuild(c *Ctx, a *sketchAnchors) {
 	const rule = "C09-D3"
+	// a rebuild reads its message: nothing reachable from a protobuf message handed to a function outside the generated
+	// package is written (a message rebuilt from twice must give the same sketch twice)
+	{
+		n := 0
+		for _, f := range c.P.Funcs {
+			if !inModule(f) || f.Synthetic != "" || f.Parent() != nil || len(f.Blocks) == 0 || f.Pkg == nil || f.Pkg.Pkg.Path() == pkgPB {
+				continue
+			}
+			for i, prm := range f.Params {
+				pt, ok := prm.Type().(*types.Pointer)
+				if !ok {
+					continue
+				}
+				nt, ok := pt.Elem().(*types.Named)
+				if !ok || nt.Obj().Pkg() == nil || nt.Obj().Pkg().Path() != pkgPB || strings.HasSuffix(nt.Obj().Name(), "Builder") {
+					continue
+				}
+				n++
+				mods := c.Mod.ModsRooted(f, i)
+				c.R.check(len(mods) == 0, rule, helperKey(f)+"/message-only-read/"+prm.Name(), shortFn(f), c.fpos(f),
+					"nothing reachable from the protobuf message argument is written", firstNonEmpty(strings.Join(mods, " "), "read only"))
+			}
+		}
+		c.R.floor(rule, "functions taking a protobuf message", n, 6)
+	}
 	f := c.P.Func(pkgSketch, "FromProtoWithStoreProvider")
 	if c.mustFunc(rule, f, "FromProtoWithStoreProvider") {
 		paths, _ := exec(c, f, nil, 1)
